@@ -978,9 +978,8 @@ class _ExtendedSymplectic(_Integrator):
             
             if hit:
                 # Event detected - return trajectory to event
-                # Apply time direction sign
-                t_hit_out = t_hit * fwd
-                times_out = np.array([t_vals[0], t_hit_out], dtype=np.float64)
+                # t_hit is measured on the signed grid, like the times of the no-event path
+                times_out = np.array([t_vals[0] * fwd, t_hit], dtype=np.float64)
                 states_out = np.vstack([y0, y_hit])
                 return _Solution(times=times_out, states=states_out)
             else:
